@@ -187,7 +187,9 @@ TConv == /\ Ev.e = "Conv"
 \* probability 0 -> log-zero -> back: the round trip must not increase it (exp of log-zero is 0)
 TZeroConv == /\ Ev.e = "ZeroConv"
              /\ UNCHANGED <<hl, tl, pl>>
-             /\ Flag("roundtrip-increases:p=0", Ev.back_is_zero /\ Ev.expzero_is_zero)
+             \* (log-zero is finite: with a base very close to 1 its exponential is a tiny positive number, not 0; what
+             \* must hold is that 0 does not come back as more than any positive probability does)
+             /\ Flag("roundtrip-increases:p=0", Ev.le_all)
              /\ Flag("log-of-zero-is-log-zero", Ev.v = Ev.zero)
 
 \* diagnostic: logmath_add_exact(x, x-d) = ex, logmath_add(x, x-d) = a; slo/shi = floor/ceiling of the exact sum
